@@ -343,6 +343,19 @@ def _targeted():
             for kw in ({"copy_buf": False}, None):
                 sp = ["split", copy.deepcopy(brs)] + ([kw] if kw else [])
                 yield ["seq", [["set", nested_key, 1], ["set", "a", 5], sp, ["store", "sEnd"]]]
+    # a template field that is a whole sub-dictionary: its text changes when an enclosing
+    # level adds keys to that dictionary after the inner sequence was built
+    for outer_key in ("d.y", "d.x", "e.f.h"):
+        field = "{{d}}" if outer_key.startswith("d") else "{{e.f}}"
+        inner_key = "d.x" if outer_key.startswith("d") else "e.f.g"
+        for depth in (1, 2):
+            inner = ["seq", [["set", inner_key, 1], ["set", "t", "T" + field], ["store", "sI"],
+                             ["write", "wI", "w_{{t}}"], ["ucfs", "uI"]]]
+            body = inner
+            for _ in range(depth - 1):
+                body = ["seq", [["data", "inc"], body]]
+            yield ["seq", [["set", outer_key, 2], body, ["store", "sO"]]]
+            yield ["source", [["set", outer_key, 2], body], 0]
     # static names of output.prefix / output.suffix and MakeFilename(prefix=..., suffix=...)
     for static_key in ("output.prefix", "output.suffix", "output.filename"):
         for fields in ({"prefix": "P{{a}}_"}, {"suffix": "_S"}, {"prefix": "P_", "suffix": "_S"},
@@ -819,6 +832,44 @@ def _case(r, obs, tmp):
                       % (M.KIND_NAME[recd["kind"]], recd["item"], p, base[label], what, q,
                          vobs[label]), tree=tree, variant=vtree)
         check_static(vtree, vrec, vobs, obs, "variant (%s)" % what, ctxinfo)
+
+    # ---- (2c) a deep copy of the built tree, nested under a new enclosing sequence: every
+    # element of the copy sees the fold of ITS enclosing sequences (the new prefix included),
+    # and the original keeps what it saw
+    if tree[0] in ("seq", "tuple") or (tree[0] == "split"):
+        import lena.meta
+        dc = build(tree, os.path.join(tmp, "dc"), flow_r)
+        twin = copy.deepcopy(dc)
+        key, val = rng.choice([("a", "OUT"), ("c", 7), ("d.y", "o"), ("b", "B2"), ("zz", 1)])
+        wrapped_tree = ["seq", [["set", key, val], copy.deepcopy(tree)]]
+        try:
+            _, wrec = M.fold(wrapped_tree)
+        except M.Unresolved:
+            wrec = None
+        if wrec is not None:
+            try:
+                lena.core.Sequence(lena.meta.SetContext(key, copy.deepcopy(val)), twin.root)
+            except lena.core.LenaKeyError as e:
+                obs.fail("keyerror-at-construction", "nesting a deep copy raised %r" % (e,))
+                wrec = None
+        if wrec is not None:
+            obs.count("deep_copied_trees_nested")
+            wobs = observe(twin, wrec, os.path.join(tmp, "dc"), obs)
+            check_static(wrapped_tree, wrec, wobs, obs,
+                         "deep copy of the tree nested under SetContext(%r, %r)" % (key, val),
+                         ctxinfo)
+            # the original was not touched by what happened to its copy
+            oobs = observe(dc, rec, os.path.join(tmp, "dc"), obs)
+            for label in oobs:
+                comparable, exp = M.expect_static(rec[label])
+                if comparable:
+                    obs.check(oobs[label] == exp,
+                              "original-changed-by-nesting-its-deep-copy:" +
+                              M.KIND_NAME[rec[label]["kind"]],
+                              "%s %r observed %r after a deep copy of the tree was nested under "
+                              "SetContext(%r, %r); the fold for the original gives %r"
+                              % (M.KIND_NAME[rec[label]["kind"]], rec[label]["item"],
+                                 oobs[label], key, val, exp), tree=tree)
 
     # ---- (4) run the real tree, compare with the model's run
     if any(it[0] == "split" and len(it) > 2 and it[2].get("copy_buf") is False
